@@ -553,6 +553,18 @@ example : wireActs [.submit 1, .enqueue 1, .tick, .enter 1, .piece 1 3, .cancel 
 example : [Act.submit 1, .enter 1, .piece 1 3, .endWrite 1 false, .ret 1, .close 1].flatMap coActs =
     [.submit 1, .enqueue 1, .tick, .enter 1, .piece 1 3, .endWrite 1 false] := rfl
 
+/-- LITERAL READING of "a request whose context ended before writing began leaves no bytes" (proposed finding KF-C07-2): in
+    the state right after `submit 1` - where, the context having ended, `cancel 1` is enabled - `enter 1` is enabled as well
+    (Go's select chooses at random among ready cases) and leads to the whole frame on the wire with outcome `(len, nil)`.
+    What holds for all schedules is the reading BY OUTCOME, `C07_cancel_before_start_no_bytes`: a writer that is told
+    `(0, ctx.Err())` has no byte on the wire. -/
+theorem C07_cex_select_may_prefer_semaphore :
+    ∃ s0 s, run { lens := fun _ => 10, coalesce := false } init [.submit 1] = some s0 ∧
+      (step { lens := fun _ => 10, coalesce := false } s0 (.cancel 1)).isSome = true ∧
+      run { lens := fun _ => 10, coalesce := false } s0 [.enter 1, .piece 1 10, .endWrite 1 true] = some s ∧
+      s.wire = [⟨1, 0, 10⟩] ∧ s.pc 1 = .wrote 10 true := by
+  refine ⟨_, _, rfl, ?_, rfl, ?_, ?_⟩ <;> decide
+
 /-! ### a fault BEFORE byte 0: `SetWriteDeadline` fails inside the critical section / at the head of `flush` (`D` scenarios) -/
 
 /-- the direct writer then returns `(0, err)` and releases the semaphore; the coalescer's `flush` hands `(0, err)` to EVERY
@@ -592,6 +604,22 @@ example : ∃ s, run { lens := fun _ => 10, coalesce := true } init
      .tick, .enter 3, .piece 3 10, .endWrite 3 true] = some s ∧
     s.wire = [⟨3, 0, 10⟩] ∧ s.pc 1 = .failing 0 ∧ s.pc 2 = .failing 0 ∧ s.pc 3 = .wrote 10 true := by
   refine ⟨_, rfl, ?_, ?_, ?_, ?_⟩ <;> decide
+
+/-- result fan-out of `flush` is complete: whenever the flusher is back at its select (no flush in progress), no writer is
+    left inside a batch - a writer that still waits for a result is one the flusher has not taken yet (it is in the queue
+    of the NEXT flush, or will be failed by the quit branch: `C07_no_writer_left_behind`) -/
+theorem C07_flush_hands_every_result (cfg : Cfg) (hser : cfg.serialised = true) (hq : cfg.flushOnQuit = false)
+    (as : List Act) (s : St) (h : run cfg init as = some s) (hf : s.flushing = false) (w : Nat) (hw : s.pc w = .queued) :
+    w ∈ s.queue ∧ s.todo = [] := by
+  have invq := invq_run cfg hser hq as init s (inv_init cfg) (invq_init cfg) h
+  have htodo := invq.idleTodo hf
+  exact ⟨(invq.qAcc w hw).resolve_right (by rw [htodo]; simp), htodo⟩
+
+/-- non-vacuity: 3 is enqueued while the flush of [1, 2] is cut; after the flush 1 and 2 have their results, 3 is queued -/
+example : ∃ s, run { lens := fun _ => 10, coalesce := true } init
+    [.submit 1, .submit 2, .submit 3, .enqueue 1, .enqueue 2, .tick, .enter 1, .piece 1 4, .endWrite 1 false, .enqueue 3] = some s ∧
+    s.flushing = false ∧ s.pc 1 = .wrote 4 false ∧ s.pc 2 = .wrote 0 false ∧ s.pc 3 = .queued ∧ s.queue = [3] := by
+  refine ⟨_, rfl, ?_, ?_, ?_, ?_, ?_⟩ <;> decide
 
 /-! ### frame size is a parameter: nothing above depends on it; the two writers differ in ONE size-independent detail -/
 
